@@ -502,6 +502,52 @@ func c08UnstableKeys(p *Prog) *RuleResult {
 			}
 		})
 	}
+	// (d) the size of a table indexed by source index is as unstable as the indices themselves: within
+	// a long-lived context source indices are never reused, so len(scanner.results) is "highest index
+	// ever allocated + 1", a function of the build history. It may size allocations, bound loops and
+	// grow the table, but a comparison with a constant turns the history into a decision.
+	for _, fn := range p.ModuleFuncs() {
+		if pkgPathOf(fn) != modPath+"/internal/bundler" {
+			continue
+		}
+		eachInstr(fn, func(b *ssa.BasicBlock, in ssa.Instruction) {
+			c, ok := in.(*ssa.Call)
+			if !ok {
+				return
+			}
+			bi, ok := c.Call.Value.(*ssa.Builtin)
+			if !ok || bi.Name() != "len" || len(c.Call.Args) != 1 {
+				return
+			}
+			o, n, ok := loadedField(c.Call.Args[0])
+			if !ok || o != "bundler.scanner" || n != "results" || c.Referrers() == nil {
+				return
+			}
+			for _, rf := range *c.Referrers() {
+				bo, ok := rf.(*ssa.BinOp)
+				if !ok {
+					continue
+				}
+				switch bo.Op {
+				case token.LSS, token.GTR, token.LEQ, token.GEQ, token.EQL, token.NEQ:
+				default:
+					continue
+				}
+				other := bo.Y
+				if other == ssa.Value(c) {
+					other = bo.X
+				}
+				if _, isConst := other.(*ssa.Const); !isConst {
+					continue // loop bounds and growth checks against an index
+				}
+				r.Instances++
+				key := FuncName(fn) + " decides on len(scanner.results)"
+				if !r.CheckExc(c08UnstableExceptions, key) {
+					r.Fail(key, p.Pos(bo.Pos()), "a decision is taken on the size of the source-index table, which in a long-lived context counts every file the context has ever seen, not the files of this build: a rebuild then differs from a fresh build of the same inputs")
+				}
+			}
+		})
+	}
 	// (b) hash inputs in the linker
 	for _, s := range []string{"linker.hashWriteUint32", "linker.hashWriteLengthPrefixed"} {
 		r.Anchor(s, p.FindFunc(s) != nil)
